@@ -29,6 +29,7 @@ CONSTANTS Vers, Fams,           \* sets of versions / cipher families to explore
           LenClasses,           \* abstract payload length classes (0 = empty record)
           AllowLoss,            \* enable KF_LossResync
           Faults,               \* subset of {"nokeys","nosuite","midstart"}
+          Alerts,               \* allow one alert record in the application phase (half-close; data after an alert is not claimed by C01)
           EmitOn
 
 Dir == {"c", "s"}
@@ -50,11 +51,12 @@ VARIABLES ver, fam, abbrev, hsInLog, pad, tickets, group, fault,   \* world (cho
           exported,             \* payload ids appended to application_traffic per direction (0 = garbage)
           crashed,
           metaOut,              \* what is appended with -a (exp_meta): entries [d, k, id] in append order
+          alerted,              \* "none", or the side that sent an alert record
           lost,                 \* a record was dropped from the capture (KF_LossResync taken)
           hist                  \* records in capture order (history, for behaviour export)
 
 world == <<ver, fam, abbrev, hsInLog, pad, tickets, group, fault>>
-envv  == <<pc, snd, nApp, nextId, sentApp, lost>>
+envv  == <<pc, snd, nApp, nextId, sentApp, lost, alerted>>
 implv == <<chSeen, canDec, hasDec, ccs, rcv, exported, crashed>>
 implAll == <<implv, metaOut>>
 vars  == <<world, envv, implv, metaOut, hist>>
@@ -119,7 +121,12 @@ Handle(r) ==
     [] r.k = "CCS" ->
          /\ ccs' = [ccs EXCEPT ![r.d] = TRUE]
          /\ UNCHANGED <<chSeen, canDec, hasDec, rcv, exported, crashed>>
-    [] r.k \in {"APP", "H13", "F13", "T13"} ->                   \* record type 0x17
+    [] r.k = "ALERT" ->                                          \* record type 0x15 (TLS <= 1.2): handle_alert(first body byte)
+         \* the body is encrypted: its first byte "looks like" a warning (0x01) or not -- r.len carries that bit
+         /\ IF r.len = 1 /\ ver # "TLS13" THEN UNCHANGED <<chSeen, canDec>>
+            ELSE chSeen' = FALSE /\ canDec' = FALSE
+         /\ UNCHANGED <<hasDec, ccs, rcv, exported, crashed>>
+    [] r.k \in {"APP", "H13", "F13", "T13", "A13"} ->            \* record type 0x17 (A13: a TLS 1.3 alert travels as such a record)
          IF ~(canDec /\ hasDec) THEN UNCHANGED implv
          ELSE LET out == Outcome(r, rcv[r.d]) IN
               IF ver = "TLS13"
@@ -142,11 +149,11 @@ MetaStep(r) ==
       appOk == r.k = "APP" /\ Len(exported'[r.d]) > Len(exported[r.d])
   IN metaOut' = metaOut
        \o (IF finDec /\ Outcome(r, rcv[r.d]) # "raise" THEN <<M(r.d, "finplain", r.id)>> ELSE <<>>)
-       \o (IF r.k \in {"CH", "SH", "HS", "FIN", "CCS"} THEN <<M(r.d, "raw", r.id)>> ELSE <<>>)
+       \o (IF r.k \in {"CH", "SH", "HS", "FIN", "CCS", "ALERT"} THEN <<M(r.d, "raw", r.id)>> ELSE <<>>)
        \o (IF appOk THEN <<M(r.d, "app", exported'[r.d][Len(exported'[r.d])])>> ELSE <<>>)
 
 (* ---------------- environment steps (produce + capture + handle) ---------------- *)
-Protected(k) == k \in {"FIN", "APP", "H13", "F13", "T13"}
+Protected(k) == k \in {"FIN", "APP", "H13", "F13", "T13", "ALERT", "A13"}
 Rec(d, k, len) == [d |-> d, k |-> k, id |-> nextId, len |-> len, pad |-> (pad /\ k = "APP"),
                    prot |-> IF Protected(k) THEN Stamp(d) ELSE Fresh("none")]
 
@@ -165,7 +172,7 @@ HsStep == /\ pc <= Len(Script)
           /\ UNCHANGED <<world, nApp, sentApp, lost>>
 
 AppStep(drop) == /\ pc > Len(Script) /\ nApp < MaxApp
-           /\ \E d \in Dir, lc \in LenClasses :
+           /\ \E d \in Dir \ {alerted}, lc \in LenClasses :      \* a side that sent its alert (close_notify) sends nothing more
                 LET r == Rec(d, "APP", lc) IN
                 /\ Emitted(r, drop)
                 /\ sentApp' = [sentApp EXCEPT ![d] = Append(@, r.id)]
@@ -177,9 +184,16 @@ Ticket13 == /\ pc > Len(Script) /\ ver = "TLS13" /\ tickets /\ nApp < MaxApp
             /\ LET r == Rec("s", "T13", 2) IN Emitted(r, FALSE)
             /\ UNCHANGED <<world, pc, nApp, sentApp, lost>>
 
-KF_LossResync == AllowLoss /\ ~lost /\ AppStep(TRUE) /\ lost' = TRUE
+KF_LossResync == AllowLoss /\ ~lost /\ AppStep(TRUE) /\ lost' = TRUE /\ UNCHANGED alerted
 
-Next == HsStep \/ (AppStep(FALSE) /\ UNCHANGED lost) \/ Ticket13 \/ KF_LossResync
+\* one alert of either side somewhere in the application phase (e.g. close_notify of a half-close); the other side may go on
+AlertStep == /\ Alerts /\ alerted = "none" /\ pc > Len(Script) /\ nApp < MaxApp
+             /\ \E d \in Dir, looksWarning \in {0, 1} :
+                  /\ LET r == Rec(d, IF ver = "TLS13" THEN "A13" ELSE "ALERT", looksWarning) IN Emitted(r, FALSE)
+                  /\ alerted' = d
+             /\ UNCHANGED <<world, pc, nApp, sentApp, lost>>
+
+Next == (HsStep /\ UNCHANGED alerted) \/ (AppStep(FALSE) /\ UNCHANGED <<lost, alerted>>) \/ (Ticket13 /\ UNCHANGED alerted) \/ KF_LossResync \/ AlertStep
 
 Init == /\ ver \in Vers /\ fam \in Fams /\ ValidPair(ver, fam)
         /\ abbrev \in (IF ver = "TLS13" THEN {FALSE} ELSE BOOLEAN)
@@ -189,7 +203,7 @@ Init == /\ ver \in Vers /\ fam \in Fams /\ ValidPair(ver, fam)
         /\ group \in (IF abbrev THEN {"permsg"} ELSE {"permsg", "flight"})
         /\ fault \in ({"none"} \cup Faults)
         /\ pc = Start /\ snd = [x \in Dir |-> Fresh("none")]
-        /\ nApp = 0 /\ nextId = 1 /\ sentApp = [x \in Dir |-> <<>>] /\ lost = FALSE
+        /\ nApp = 0 /\ nextId = 1 /\ sentApp = [x \in Dir |-> <<>>] /\ lost = FALSE /\ alerted = "none"
         /\ chSeen = FALSE /\ canDec = FALSE /\ hasDec = FALSE /\ ccs = [x \in Dir |-> FALSE]
         /\ rcv = [x \in Dir |-> Fresh("none")] /\ exported = [x \in Dir |-> <<>>] /\ crashed = FALSE
         /\ hist = <<>> /\ metaOut = <<>>
@@ -197,7 +211,7 @@ Spec == Init /\ [][Next]_vars
 
 (* ---------------- contract ---------------- *)
 Done == pc > Len(Script) /\ nApp = MaxApp
-Healthy == fault = "none" /\ ~lost
+Healthy == fault = "none" /\ ~lost /\ alerted = "none"
 \* C01: at quiescence exactly the application data each endpoint sent, in order
 ExportedEqualsSent == (Done /\ Healthy) => \A d \in Dir : exported[d] = sentApp[d]
 \* C01 / C03 / C08: always a prefix (holds before quiescence, under missing keys, unknown suite, mid-start)
